@@ -367,6 +367,23 @@ func jobSyncMonitor(res *Result, m *mJob, cfg jsCfg, ops []jsOp, obs []jsObs, js
 					hit("C09", "C09/recorded-task-dropped", fmt.Sprintf("op %d: task %s is no longer listed", k, ra.Name))
 				}
 			}
+			// a task that enters the status must be a Pod this Job controls
+			for _, rb := range b.Status.Tasks {
+				isNew := true
+				for _, ra := range a.Status.Tasks {
+					if ra.Name == rb.Name {
+						isNew = false
+					}
+				}
+				if !isNew {
+					continue
+				}
+				for _, p := range ob.Pods {
+					if p.Name == rb.Name && !podControlled(p) {
+						hit("C09", "C09/foreign-pod-adopted", fmt.Sprintf("op %d: %s is not controlled by the Job but was added to status.tasks", k, p.Name))
+					}
+				}
+			}
 			// newly finished, not deleting: nothing of the Job may still be alive
 			if !jobFinished(a) && jobFinished(b) && b.DeletionTimestamp == nil {
 				for _, p := range ob.Pods {
